@@ -168,19 +168,23 @@ func Run(r *rt.Run) error {
 	debug.SetGCPercent(gcPercent())
 	debug.SetMemoryLimit(1 << 30)
 	t := r.NewTrace("trace000")
-	maxLen, svcLen, nRandom, nRandomSvc := 3, 3, 0, 0
+	maxLen, svcLen, trLen, nRandom, nRandomSvc := 3, 3, 2, 0, 0
 	if r.Thorough() {
-		maxLen, svcLen, nRandom, nRandomSvc = 4, 4, 150, 1500
+		maxLen, svcLen, trLen, nRandom, nRandomSvc = 4, 4, 3, 150, 1500
 	}
 	ids := []string{"a", "b"}
 	levels := []int{0, 1, 2, 3}
 	var jobs []job
+	// two showcase histories first (they become the evidence samples; both recur in the enumeration)
+	jobs = append(jobs,
+		job{kind: "node", cfg: Cfg{Anon: true, Named: true, SCO: true}, hist: []Pt{{"a", 2}, {"a", 2}}},
+		job{kind: "svc", ops: []SOp{{"collect", "anon", "a", 3}, {"close", "anon", "", 0}, {"collect", "anon", "b", 1}}})
 	for _, h := range histories(maxLen, ids, levels) {
 		for _, c := range cfgs {
-			jobs = append(jobs, job{kind: "node", cfg: c, hist: h, taskRestarts: len(h) <= 3})
+			jobs = append(jobs, job{kind: "node", cfg: c, hist: h, taskRestarts: len(h) <= trLen})
 		}
 	}
-	nExh := len(jobs)
+	nExh := len(jobs) - 2
 	// seeded random longer histories (a level changes with probability 1/2 so that
 	// stateChangesOnly sees both repeats and changes)
 	for i := 0; i < nRandom; i++ {
@@ -196,7 +200,7 @@ func Run(r *rt.Run) error {
 		}
 		jobs = append(jobs, job{kind: "node", cfg: cfgs[r.Rand.Intn(len(cfgs))], hist: h, taskRestarts: true})
 	}
-	svcLevels := []int{0, 1, 3}
+	svcLevels := []int{0, 3}
 	if r.Thorough() {
 		svcLevels = levels
 	}
@@ -273,10 +277,21 @@ func Run(r *rt.Run) error {
 				t = r.NewTrace(fmt.Sprintf("trace%03d", fileNo))
 			}
 			t.Reset(res.resets[i])
+			ntx, before := 0, true
 			for _, e := range tr {
 				t.Event(e["ev"].(string), e)
+				switch e["ev"] {
+				case "Crash", "TaskRestart":
+					before = false
+				case "Tx":
+					if before {
+						ntx++
+					}
+				}
 			}
-			t.Distinct(res.keys[i])
+			if ntx > 0 {
+				t.Distinct(res.keys[i])
+			}
 			restarts[res.resets[i]["kind"].(string)]++
 		}
 	}
@@ -303,11 +318,12 @@ func Run(r *rt.Run) error {
 	r.Extra["random_node_histories"] = nRandom
 	r.Extra["svc_histories"] = nSvc
 	r.Extra["svc_max_len"] = svcLen
+	r.Extra["task_restart_max_len"] = trLen
 	r.Extra["random_svc_histories"] = nRandomSvc
 	r.Extra["crash_restarts_node"] = restarts["crash"]
 	r.Extra["task_restarts_node"] = restarts["taskrestart"]
 	r.Extra["crash_restarts_svc"] = restarts["svc"]
-	r.Finish("node: every level history up to the length bound over 2 alert IDs x 4 levels (up to renaming of IDs) x {anonymous, named, both topics} x stateChangesOnly on/off on a real AlertNode task, restarted (fresh service + TaskMaster) on the storage as it stood before and after every topic-store commit and at every point boundary with the remaining points fed again, plus an in-process task restart after every point; svc: every history of Collect/CloseTopic/DeleteTopic on two topics up to the bound with a restart at every commit boundary; thorough adds seeded random longer histories; distinct by (configuration, history, crash point)", nRandom == 0)
+	r.Finish("node: every level history up to the length bound over 2 alert IDs x 4 levels (up to renaming of IDs) x {anonymous, named, both topics} x stateChangesOnly on/off on a real AlertNode task, restarted (fresh service + TaskMaster) on the storage as it stood before and after every topic-store commit and at every point boundary with the remaining points fed again, plus an in-process task restart after every point; svc: every history of Collect/CloseTopic/DeleteTopic on two topics up to the bound with a restart at every commit boundary; thorough adds seeded random longer histories; non-trivial = at least one topic-store transaction was committed before the crash / task restart (the restart is not on a pristine store); distinct by (configuration, history, crash point)", nRandom == 0)
 	return nil
 }
 
